@@ -357,10 +357,13 @@ theorem polish_of_root (p : T4 K K K K) (t : K) (h : polyEval p t = 0) : polish_
   · rfl
   · rw [newtonStep_of_root p t h, newtonStep_of_root p t h, newtonStep_of_root p t h, newtonStep_of_root p t h]
 
-/-- what the loop body does with one root -/
+/-- what the loop body does with one root: a root the solver places outside (-0.1, 1.1) is dropped before it is refined (it cannot
+    be a hit, and a few Newton steps could drag it into [0,1] without converging: repair of curve_line.rs) -/
 def hitOf (w1 w2 w3 w4 : V2 K) (l : T2 (V2 K) (V2 K)) (r : K) : Option (T3 K K (V2 K)) :=
-  let t := snap w1 w4 l (polish_root (distPoly w1 w2 w3 w4 l) r)
-  if 0 ≤ t ∧ t ≤ 1 then some (T3.mk t (sOf l (de_casteljau4 t w1 w2 w3 w4)) (de_casteljau4 t w1 w2 w3 w4)) else none
+  if ¬ (-0.1 < r ∧ r < 1.1) then none
+  else
+    let t := snap w1 w4 l (polish_root (distPoly w1 w2 w3 w4 l) r)
+    if 0 ≤ t ∧ t ≤ 1 then some (T3.mk t (sOf l (de_casteljau4 t w1 w2 w3 w4)) (de_casteljau4 t w1 w2 w3 w4)) else none
 
 private theorem foldl_toList {α β : Type} (g : α → Option β) (l : List α) (init : List β) :
     List.foldl (fun st x => st ++ (g x).toList) init l = init ++ l.filterMap g := by
@@ -372,6 +375,10 @@ private theorem foldl_toList {α β : Type} (g : α → Option β) (l : List α)
 
 private theorem ite_append {β : Type} (c : Prop) [Decidable c] (st : List β) (x : β) :
     (if c then st ++ [x] else st) = st ++ (if c then some x else none).toList := by
+  split_ifs <;> simp
+
+private theorem guard_append {β : Type} (g c : Prop) [Decidable g] [Decidable c] (st : List β) (x : β) :
+    (if ¬ g then st else if c then st ++ [x] else st) = st ++ (if ¬ g then none else if c then some x else none).toList := by
   split_ifs <;> simp
 
 /-- the generated `curve_intersects_ray` is: no hits for a degenerate line, otherwise the hits of the
@@ -393,8 +400,15 @@ theorem cir_unfold (solve : T4 K K K K → List K) (w1 w2 w3 w4 : V2 K) (l : T2 
     rw [← List.nil_append (List.filterMap _ _), ← foldl_toList]
     congr 1
     funext st r
-    simp only [hitOf, snap, sOf, distPoly, lineA, lineB, lineC, fabs, Bool.and_eq_true, decide_eq_true_eq, gt_iff_lt]
-    exact ite_append _ _ _
+    by_cases hg : (-0.1 : K) < r ∧ r < 1.1
+    · have hg' : (!(decide (r > -(0.1 : K)) && decide (r < (1.1 : K)))) = false := by simp [hg.1, hg.2]
+      simp only [hitOf, hg, not_true_eq_false, if_false, hg', Bool.false_eq_true, snap, sOf, distPoly, lineA, lineB, lineC, fabs,
+        Bool.and_eq_true, decide_eq_true_eq, gt_iff_lt]
+      exact ite_append _ _ _
+    · have hg' : (!(decide (r > -(0.1 : K)) && decide (r < (1.1 : K)))) = true := by
+        simp only [Bool.not_eq_true', Bool.and_eq_false_iff, decide_eq_false_iff_not, gt_iff_lt]
+        by_contra hc; push Not at hc; exact hg hc
+      simp only [hitOf, hg, not_false_eq_true, if_true, hg', Option.toList_none, List.append_nil]
 
 /-- `curve_intersects_line` returns exactly the hits of `curve_intersects_ray` with `0 ≤ s ≤ 1` -/
 theorem intersects_line_eq_filter (solve : T4 K K K K → List K) (w1 w2 w3 w4 : V2 K) (l : T2 (V2 K) (V2 K)) :
@@ -435,6 +449,8 @@ theorem hit_sound (solve : T4 K K K K → List K) (w1 w2 w3 w4 : V2 K) (l : T2 (
     rw [List.mem_filterMap] at hh
     obtain ⟨r, hr, hhit⟩ := hh
     simp only [hitOf] at hhit
+    split at hhit
+    · exact absurd hhit (by simp)
     split at hhit
     · rename_i hrange
       simp only [Option.some.injEq] at hhit
@@ -492,7 +508,8 @@ theorem hit_complete (solve : T4 K K K K → List K) (w1 w2 w3 w4 : V2 K) (l : T
   refine ⟨T3.mk t (sOf l (de_casteljau4 t w1 w2 w3 w4)) (de_casteljau4 t w1 w2 w3 w4), ?_, rfl, rfl⟩
   rw [List.mem_filterMap]
   refine ⟨t, hsolve t hroot, ?_⟩
-  simp only [hitOf, polish_of_root _ t hroot, hsnap, ht0, ht1, and_self, if_true]
+  have hw : (-0.1 : K) < t ∧ t < 1.1 := ⟨lt_of_lt_of_le (by norm_num) ht0, lt_of_le_of_lt ht1 (by norm_num)⟩
+  simp only [hitOf, hw, and_self, not_true_eq_false, if_false, polish_of_root _ t hroot, hsnap, ht0, ht1, if_true]
 
 /-- the cubic term is treated as negligible (curve_line.rs: absolute and relative test) -/
 def negligibleLead (p : T4 K K K K) : Prop :=
